@@ -113,6 +113,22 @@ pub(crate) mod kpolicy {
             kani::assume(k[a][a] == 0);
             a += 1;
         }
+        // demotion composes: if class a may demote trees of class b, and b may keep or demote trees of
+        // class c, then a may keep or demote trees of class c (every class-order policy of the
+        // repository has this shape; the allocator unreserves a demoted tree under the demoting class)
+        let mut a = 0;
+        while a < 8 {
+            let mut b = 0;
+            while b < 8 {
+                let mut c = 0;
+                while c < 8 {
+                    kani::assume(!(k[a][b] == 1 && k[b][c] <= 1) || k[a][c] <= 1);
+                    c += 1;
+                }
+                b += 1;
+            }
+            a += 1;
+        }
         unsafe {
             KIND = k;
             PRIO = kani::any();
